@@ -15,6 +15,8 @@ import (
 	"syscall"
 	"time"
 
+	"go.uber.org/zap"
+
 	"go.opentelemetry.io/collector/component"
 	"go.opentelemetry.io/collector/component/componentstatus"
 	"go.opentelemetry.io/collector/confmap"
@@ -309,6 +311,7 @@ func (r *run) do(a Action, where string, from *comp) (delivered bool) {
 				if k == "error" {
 					err = errors.New("injected watch error")
 				}
+				r.prov.logf("harness provider notifies back to back", zap.Int("i", i), zap.String("kind", k))
 				pv, _ := driver.Catch(func() { w(&confmap.ChangeEvent{Error: err}) })
 				if pv != nil {
 					// the channel was closed under a pending notification: outside the provider contract, our fault
@@ -702,8 +705,14 @@ func newRun(c *driver.Ctx, h *History) (*run, error) {
 		BuildInfo:             component.NewDefaultBuildInfo(),
 		SkipSettingGRPCLogger: true,
 		ConfigProviderSettings: otelcol.ConfigProviderSettings{ResolverSettings: confmap.ResolverSettings{
-			URIs:              []string{"vv:x"},
-			ProviderFactories: []confmap.ProviderFactory{confmap.NewProviderFactory(func(confmap.ProviderSettings) confmap.Provider { return r.prov })},
+			URIs: []string{"vv:x"},
+			ProviderFactories: []confmap.ProviderFactory{confmap.NewProviderFactory(func(ps confmap.ProviderSettings) confmap.Provider {
+				r.prov.logger = ps.Logger
+				return r.prov
+			})},
+			ConverterFactories: []confmap.ConverterFactory{confmap.NewConverterFactory(func(cs confmap.ConverterSettings) confmap.Converter {
+				return conv{r, cs.Logger}
+			})},
 		}},
 	})
 	if err != nil {
